@@ -417,6 +417,26 @@ def _section(args):
         return ('bad', 'unparse then parse of %r gave %r - the section round trip theorem predicts the same element' % (x, r), text)
     return ('ok', None, text)
 
+# ---- instances of C05_section_round_trip_any_eids: the same element carrying stale ids, or none, comes back with the generated ones ----
+def _section_ids(args):
+    from harness import absdoc, eidlib
+    uri, prefix, kw, n, h, t = args
+    if h is None: return ('ok', None, None)
+    tag = absdoc.HIER[kw]
+    G = eidlib.tables()
+    cand = (prefix + '__' if prefix else '') + G.aliases.get(tag, tag) + '_' + eidlib.clean_num_ref(n)
+    def el(a1, a2):
+        return ['E', tag, a1, [['E', 'num', [], [['T', n]]], ['E', 'heading', [], [['T', h]]], ['E', 'content', [], [['E', 'p', a2, [['T', t]]]]]]]
+    x = el([['eId', cand]], [['eId', cand + '__p_1']])
+    for y in (el([], []), el([['eId', 'stale_9']], [['eId', cand]]), el([['eId', cand + '__p_1']], [])):
+        text = impl.unparse_sx(y)
+        if not isinstance(text, str):
+            return ('bad', 'unparse of a hierarchical element raised %r' % (text,), None)
+        r = impl.e2e_sx((uri, 'hier_element', prefix, text))
+        if r != x:
+            return ('bad', 'unparse then parse of %r gave %r - C05_section_round_trip_any_eids predicts %r' % (y, r, x), text)
+    return ('ok', None, None)
+
 # ---- instances of C05/C06_crossheading_round_trip, run on the implementation ----
 def _crossheading(args):
     uri, prefix, t = args
